@@ -508,3 +508,279 @@ def environments_2d(cx):
 
                         cx.check("compute_plaquette_environments: environment x its plaquette == the whole (untruncated) / bonds within the cap",
                                  p, t_pl)
+
+
+# ----------------------------------------------------------------------------------------------
+# coarse graining (HOTRG) and corner transfer (CTMRG) in 2D
+# ----------------------------------------------------------------------------------------------
+
+@driver("C12", "coarse-graining-2d", chunks=2, timeout=300,
+        bound="contract_hotrg / contract_ctmrg / coarse_grain_hotrg on flat lattices 2x2..5x3 (bond 2..3, open; 3x3 / 4x3 "
+              "periodic) and PEPS norm networks up to 3x3, 4 dtypes, stored exponents; canonize on/off, lazy, sequence, "
+              "max_separation, strip_exponent / equalize_norms, gauge_power, in place or copy. untruncated "
+              "(max_bond=4096, cutoff=0): value == exact (1e-7 double / 5e-3 single); capped (cap in [D, D^2-1]): every bond of "
+              "the returned (final_contract=False or lazy) or coarse-grained network <= cap")
+def coarse_graining_2d(cx):
+    quiet_env()
+    rng = cx.rng
+    expos = ["none", "attr", "equalize"]
+    if cx.quick:
+        geos = [("flat", 2, 2, 3, False), ("flat", 2, 3, 2, False), ("flat", 3, 3, 2, False), ("flat", 4, 4, 2, False),
+                ("flat", 3, 4, 3, False), ("flat", 1, 3, 2, False), ("flat", 3, 3, 2, True), ("norm", 2, 2, 2, False),
+                ("norm", 3, 3, 2, False)]
+    else:
+        geos = [("flat", 1, 1, 2, False), ("flat", 1, 4, 2, False), ("flat", 3, 1, 2, False), ("flat", 2, 2, 3, False),
+                ("flat", 2, 3, 2, False), ("flat", 3, 3, 2, False), ("flat", 3, 3, 3, False), ("flat", 4, 4, 2, False),
+                ("flat", 3, 4, 3, False), ("flat", 5, 3, 2, False), ("flat", 2, 5, 2, False), ("flat", 4, 4, 3, False),
+                ("flat", 3, 3, 2, True), ("flat", 4, 3, 2, (True, False)), ("flat", 3, 4, 2, (False, True)),
+                ("norm", 2, 2, 2, False), ("norm", 3, 3, 2, False), ("norm", 2, 4, 2, False), ("norm", 4, 3, 2, False)]
+    for gi, (kind, Lx, Ly, D, cyc) in enumerate(geos):
+        for di, dtype in enumerate(DTYPES):
+            if di >= 2 and (cx.quick or Lx * Ly > 9) and (gi + di) % 2:
+                continue
+            how = expos[(gi + di + 2) % 3]
+            if not cx.mine():
+                continue
+            if cx.out_of_time():
+                cx.inconclusive.append("coarse-graining-2d: time budget exhausted")
+                return
+            tn, layers = make_2d(rng, kind, Lx, Ly, D, dtype, cyc)
+            set_exponent(tn, rng, how, dtype)
+            ex = value_of(tn)
+            before = tn.copy()
+            base = dict(kind=kind, L=[Lx, Ly], D=D, cyclic=list(cyc) if isinstance(cyc, tuple) else cyc, dtype=dtype,
+                        exponent=how != "none", expo=how, unit_dim=1 in (Lx, Ly))
+            tol = tol_of(dtype, 10)
+            d_edge = D if kind == "flat" else D * D
+            nrep = 3 if cx.quick else 8
+            for scheme in ("hotrg", "ctmrg"):
+                for _ in range(nrep):
+                    canonize = bool(rng.integers(2))
+                    nopts = _norm_opts(rng)
+                    inplace = bool(rng.integers(2))
+                    kw = dict(canonize=canonize, **nopts)
+                    if scheme == "hotrg":
+                        seq = [("x", "y"), ("y", "x"), ("x",), ("y",), ("x", "x", "y")][int(rng.integers(5))]
+                        kw.update(sequence=seq, gauge_power=[1.0, 0.5][int(rng.integers(2))])
+                    else:
+                        seq = [None, "bltr", "tb", "l", ("xmin", "ymax"), "rl"][int(rng.integers(6))]
+                        kw.update(sequence=seq)
+                        if rng.random() < 0.5:
+                            kw.update(mode="projector")  # (the documented default; its canonize / lazy options belong to this mode)
+                    ms = int(rng.integers(1, 3))
+                    kw["max_separation"] = ms
+                    p = dict(base, scheme=scheme, inplace=inplace, **{k: (list(v) if isinstance(v, tuple) else v) for k, v in kw.items()})
+
+                    def t_exact(scheme=scheme, kw=kw, inplace=inplace):
+                        t0 = tn.copy()
+                        fn = t0.contract_hotrg if scheme == "hotrg" else t0.contract_ctmrg
+                        r = fn(max_bond=CHI, cutoff=0.0, inplace=inplace, optimize="greedy", **kw)
+                        e = cmp_value(as_value(r), ex, tol)
+                        if e:
+                            return e
+                        if not inplace and not tensors_equal(t0, before):
+                            return "inplace=False modified the network"
+
+                    cx.check("contract_hotrg / contract_ctmrg (2D) with max_bond >= exact bond and cutoff=0 == exact contraction", p, t_exact)
+                    cap = int(rng.integers(d_edge, d_edge * d_edge)) if d_edge > 1 else 1
+                    lazy = bool(rng.integers(2))
+                    kw2 = {k: v for k, v in kw.items() if k not in ("strip_exponent", "equalize_norms")}
+                    p2 = dict(base, scheme=scheme, cap=cap, lazy=lazy, **{k: (list(v) if isinstance(v, tuple) else v) for k, v in kw2.items()})
+
+                    def t_cap(scheme=scheme, kw2=kw2, cap=cap, lazy=lazy):
+                        fn = tn.contract_hotrg if scheme == "hotrg" else tn.contract_ctmrg
+                        r = fn(max_bond=cap, cutoff=0.0, optimize="greedy", **(dict(lazy=True) if lazy else dict(final_contract=False)), **kw2)
+                        if not hasattr(r, "tensors"):
+                            return "no network handed over although final_contract=False / lazy=True"
+                        return check_cap(r, cap, d_edge)
+
+                    cx.check("contract_hotrg / contract_ctmrg (2D) with a small cap: every bond of the handed-over network is within the cap",
+                             p2, t_cap)
+            for direction in "xy":
+                for canonize, lazy in itertools.product((False, True), (False, True)):
+                    cap = int(rng.integers(d_edge, d_edge * d_edge)) if d_edge > 1 else 1
+                    for capped in (False, True):
+                        nopts = _norm_opts(rng) if not capped else {}
+                        p = dict(base, direction=direction, canonize=canonize, lazy=lazy, cap=cap if capped else None, **nopts)
+
+                        def t_cg(direction=direction, canonize=canonize, lazy=lazy, cap=cap, capped=capped, nopts=nopts):
+                            r = tn.coarse_grain_hotrg(direction, max_bond=cap if capped else CHI, cutoff=0.0, canonize=canonize, lazy=lazy,
+                                                      optimize="greedy", **nopts)
+                            if isinstance(r, tuple):  # (network, exponent) when strip_exponent
+                                r, e10 = r
+                            else:
+                                e10 = 0.0
+                            if not tensors_equal(tn, before):
+                                return "the non in-place call modified the network"
+                            if capped:
+                                return check_cap(r, cap, d_edge)
+                            if not lazy:
+                                L0 = Lx if direction == "x" else Ly
+                                L1 = r.Lx if direction == "x" else r.Ly
+                                if L1 != (L0 + 1) // 2:
+                                    return f"coarse grained length {L1}, expected {(L0 + 1) // 2}"
+                            return cmp_value(value_of(r, e10), ex, tol, "value of the coarse-grained network")
+
+                        cx.check("coarse_grain_hotrg (2D): keeps the value when untruncated, halves the lattice, obeys the cap", p, t_cg)
+
+
+# ----------------------------------------------------------------------------------------------
+# 3D lattices
+# ----------------------------------------------------------------------------------------------
+
+MODES_3D = ["peps", "projector3d", "l2bp3d", "local-early", "local-late", "projector", "su", "l2bp"]
+SEQUENCES_3D = [None, ("xmin",), ("zmax",), ("xmin", "xmax"), ("ymin", "zmax"), ("zmin", "zmax", "ymin", "ymax", "xmin", "xmax"),
+                ("xmax", "ymax", "zmax")]
+
+
+def _geos_3d(quick):
+    if quick:
+        return [(2, 2, 2, 2), (2, 2, 3, 2), (1, 2, 3, 2), (2, 3, 2, 2), (2, 2, 2, 3)]
+    return [(1, 1, 1, 2), (1, 1, 3, 2), (1, 2, 2, 3), (2, 1, 3, 2), (2, 2, 2, 2), (2, 2, 2, 3), (2, 2, 3, 2), (3, 2, 2, 2),
+            (2, 3, 2, 2), (2, 3, 3, 2), (3, 3, 3, 2), (2, 2, 4, 2)]
+
+
+@driver("C12", "boundary-and-coarse-graining-3d", chunks=3, timeout=300,
+        bound="TensorNetwork3D.contract_boundary (8 modes, 7 sequences, canonize, strip_exponent / equalize_norms, max_separation, "
+              "final_contract=False), contract_boundary_from (one step from each of the 6 sides), contract_peps_sweep, "
+              "contract_simple_sweep (cutoff 0 passed through peps_opts / mps_opts), contract_ctmrg, contract_hotrg, "
+              "coarse_grain_hotrg on random lattices 1x1x1..3x3x3 / 2x2x4 with bond 2 (3 on 2x2x2), 4 dtypes, stored exponents. "
+              "untruncated (max_bond=4096, cutoff=0): value == exact (1e-7 double / 5e-3 single, x100 for the simple-update "
+              "based schemes); capped (cap in [D, D^2-1]): every bond of the handed-over network <= cap")
+def lattice_3d(cx):
+    import quimb.tensor as qtn
+
+    quiet_env()
+    rng = cx.rng
+    expos = ["none", "attr", "equalize"]
+    for gi, (Lx, Ly, Lz, D) in enumerate(_geos_3d(cx.quick)):
+        for di, dtype in enumerate(DTYPES):
+            if di >= 2 and (cx.quick or Lx * Ly * Lz > 8) and (gi + di) % 2:
+                continue
+            how = expos[(gi + di) % 3]
+            if not cx.mine():
+                continue
+            if cx.out_of_time():
+                cx.inconclusive.append("boundary-and-coarse-graining-3d: time budget exhausted")
+                return
+            tn = qtn.TN3D_rand(Lx, Ly, Lz, D, seed=int(rng.integers(1 << 30)), dtype=dtype)
+            rescale(tn, rng)
+            set_exponent(tn, rng, how, dtype)
+            ex = value_of(tn)
+            before = tn.copy()
+            base = dict(L=[Lx, Ly, Lz], D=D, dtype=dtype, exponent=how != "none", expo=how, unit_dim=1 in (Lx, Ly, Lz))
+            tol = tol_of(dtype, 10)
+            big = Lx * Ly * Lz > 12
+            for mode in MODES_3D:
+                for _ in range(1 if (cx.quick or big) else 2):
+                    canonize = bool(rng.integers(2))
+                    seq = SEQUENCES_3D[int(rng.integers(len(SEQUENCES_3D)))]
+                    nopts = _norm_opts(rng)
+                    inplace = bool(rng.integers(2))
+                    p = dict(base, mode=mode, canonize=canonize, sequence=list(seq) if seq else None, inplace=inplace, **nopts)
+                    loose = 100 if mode in ("su", "l2bp", "l2bp3d") else 1
+
+                    def t_exact(mode=mode, canonize=canonize, seq=seq, nopts=nopts, inplace=inplace, loose=loose):
+                        t0 = tn.copy()
+                        r = t0.contract_boundary(max_bond=CHI, cutoff=0.0, mode=mode, canonize=canonize, sequence=seq, inplace=inplace,
+                                                 optimize="greedy", **nopts)
+                        e = cmp_value(as_value(r), ex, tol * loose)
+                        if e:
+                            return e
+                        if not inplace and not tensors_equal(t0, before):
+                            return "inplace=False modified the network"
+
+                    cx.check("contract_boundary (3D) with max_bond >= exact bond and cutoff=0 == exact contraction", p, t_exact)
+                cap = int(rng.integers(D, D * D))
+                seq = SEQUENCES_3D[int(rng.integers(len(SEQUENCES_3D)))]
+                variant = ["final_contract=False", "max_separation=2"][int(rng.integers(2))]
+                p = dict(base, mode=mode, sequence=list(seq) if seq else None, cap=cap, handover=variant)
+
+                def t_cap(mode=mode, seq=seq, cap=cap, variant=variant):
+                    kw = dict(final_contract=False)
+                    if variant == "max_separation=2":
+                        kw["max_separation"] = 2
+                    r = tn.contract_boundary(max_bond=cap, cutoff=0.0, mode=mode, sequence=seq, optimize="greedy", **kw)
+                    if not hasattr(r, "tensors"):
+                        return "no network handed over although final_contract=False"
+                    return check_cap(r, cap, D)
+
+                cx.check("contract_boundary (3D) with a small cap: every bond of the handed-over network is within the cap", p, t_cap)
+                # one step from a random side
+                fw = ["xmin", "xmax", "ymin", "ymax", "zmin", "zmax"][int(rng.integers(6))]
+                Ls = dict(x=Lx, y=Ly, z=Lz)
+                if Ls[fw[0]] >= 2:
+                    rg = (0, 1) if fw.endswith("min") else (Ls[fw[0]] - 2, Ls[fw[0]] - 1)
+                    for capped in (False, True):
+                        p = dict(base, mode=mode, from_which=fw, cap=cap if capped else None)
+
+                        def t_step(mode=mode, fw=fw, rg=rg, cap=cap, capped=capped):
+                            ranges = dict(xrange=(0, Lx - 1), yrange=(0, Ly - 1), zrange=(0, Lz - 1))
+                            ranges[fw[0] + "range"] = rg
+                            r = tn.contract_boundary_from(from_which=fw, max_bond=cap if capped else CHI, cutoff=0.0, mode=mode, **ranges)
+                            if not tensors_equal(tn, before):
+                                return "the non in-place call modified the network"
+                            if capped:
+                                return check_cap(r, cap, D)
+                            return cmp_value(value_of(r), ex, tol * (100 if mode in ("su", "l2bp", "l2bp3d") else 1), "value after the step")
+
+                        cx.check("contract_boundary_from (3D): one inward step keeps the value (untruncated) / obeys the cap", p, t_step)
+            # sweeps
+            for fw in (None, "xmin", "ymax", "zmin"):
+                for canonize in (True, False):
+                    def t_ps(fw=fw, canonize=canonize):
+                        r = tn.contract_peps_sweep(max_bond=CHI, cutoff=0.0, from_which=fw, canonize=canonize)
+                        return cmp_value(as_value(r), ex, tol)
+
+                    cx.check("contract_peps_sweep (3D, untruncated) == exact contraction", dict(base, from_which=fw, canonize=canonize), t_ps)
+
+            def t_ss():
+                r = tn.contract_simple_sweep(max_bond=CHI, peps_opts=dict(cutoff=0.0), mps_opts=dict(cutoff=0.0))
+                return cmp_value(as_value(r), ex, tol * 100)
+
+            cx.check("contract_simple_sweep (3D, untruncated, cutoff=0) == exact contraction", dict(base), t_ss)
+            for scheme in ("ctmrg", "hotrg"):
+                for _ in range(2 if cx.quick else 5):
+                    canonize = bool(rng.integers(2))
+                    nopts = _norm_opts(rng)
+                    kw = dict(canonize=canonize, **nopts)
+                    if scheme == "hotrg":
+                        kw["sequence"] = [("x", "y", "z"), ("z", "x"), ("y",), ("z", "y", "x")][int(rng.integers(4))]
+                    else:
+                        kw["sequence"] = SEQUENCES_3D[int(rng.integers(len(SEQUENCES_3D)))]
+                    p = dict(base, scheme=scheme, **{k: (list(v) if isinstance(v, tuple) else v) for k, v in kw.items()})
+
+                    def t_cs(scheme=scheme, kw=kw):
+                        fn = tn.contract_hotrg if scheme == "hotrg" else tn.contract_ctmrg
+                        r = fn(max_bond=CHI, cutoff=0.0, optimize="greedy", **kw)
+                        return cmp_value(as_value(r), ex, tol)
+
+                    cx.check("contract_hotrg / contract_ctmrg (3D) with max_bond >= exact bond and cutoff=0 == exact contraction", p, t_cs)
+                    cap = int(rng.integers(D, D * D))
+                    lazy = bool(rng.integers(2))
+                    kw2 = {k: v for k, v in kw.items() if k not in ("strip_exponent", "equalize_norms")}
+
+                    def t_cc(scheme=scheme, kw2=kw2, cap=cap, lazy=lazy):
+                        fn = tn.contract_hotrg if scheme == "hotrg" else tn.contract_ctmrg
+                        r = fn(max_bond=cap, cutoff=0.0, optimize="greedy", **(dict(lazy=True) if lazy else dict(final_contract=False)), **kw2)
+                        if not hasattr(r, "tensors"):
+                            return "no network handed over although final_contract=False / lazy=True"
+                        return check_cap(r, cap, D)
+
+                    cx.check("contract_hotrg / contract_ctmrg (3D) with a small cap: every bond of the handed-over network is within the cap",
+                             dict(base, scheme=scheme, cap=cap, lazy=lazy, **{k: (list(v) if isinstance(v, tuple) else v) for k, v in kw2.items()}), t_cc)
+            for direction in "xyz":
+                for canonize, lazy, capped in itertools.product((False, True), (False, True), (False, True)):
+                    cap = int(rng.integers(D, D * D))
+                    p = dict(base, direction=direction, canonize=canonize, lazy=lazy, cap=cap if capped else None)
+
+                    def t_cg(direction=direction, canonize=canonize, lazy=lazy, cap=cap, capped=capped):
+                        r = tn.coarse_grain_hotrg(direction, max_bond=cap if capped else CHI, cutoff=0.0, canonize=canonize, lazy=lazy,
+                                                  optimize="greedy")
+                        if not tensors_equal(tn, before):
+                            return "the non in-place call modified the network"
+                        if capped:
+                            return check_cap(r, cap, D)
+                        return cmp_value(value_of(r), ex, tol, "value of the coarse-grained network")
+
+                    cx.check("coarse_grain_hotrg (3D): keeps the value when untruncated, obeys the cap", p, t_cg)
